@@ -14,7 +14,11 @@ func (verifNopCloser) Close() error { return nil }
 // VerifNew builds a Client over an in-process LDLMClient (the client tests do the same with an
 // unexported helper).
 func VerifNew(ctx context.Context, pbc pb.LDLMClient, noAutoRenew bool, maxRetries int) *Client {
-	return &Client{conn: verifNopCloser{}, pbc: pbc, ctx: ctx, noAutoRenew: noAutoRenew, maxRetries: maxRetries}
+	var conn closer = verifNopCloser{}
+	if c, ok := pbc.(closer); ok { // a transport that can be closed plays the connection
+		conn = c
+	}
+	return &Client{conn: conn, pbc: pbc, ctx: ctx, noAutoRenew: noAutoRenew, maxRetries: maxRetries}
 }
 
 // VerifRenewNames lists the keys of the renew map.
